@@ -1,9 +1,102 @@
 import StraxModel.Driver.Parse
+import StraxModel.Model.Overlap
 namespace Strax.Driver
-open Strax
+open Strax Strax.Overlap
 
-/-- ops of property C09 (stub: no ops yet) -/
+/-- chunk of the dependency: `start~stop~rows` (rows `t:e:id,…` or `-`) -/
+def c09ParseChunk (name kind : String) (s : String) : Option RawChunk :=
+  match s.splitOn "~" with
+  | [a, b, rows] => do
+    pure ⟨name, kind, some "0", ← a.toInt?, ← b.toInt?, ← parseRows rows, none, none, 1000⟩
+  | _ => none
+
+def c09ShowChunk (c : Chunk) : String := s!"{c.start}~{c.stop}~{showRows c.rows}"
+
+def c09ShowDict (d : Dict Chunk) : String :=
+  if d.isEmpty then "{}" else ";".intercalate (d.map fun kv => s!"{kv.1}={c09ShowChunk kv.2}")
+
+def c09ShowDicts (ds : List (Dict Chunk)) : String :=
+  if ds.isEmpty then "-" else " ".intercalate (ds.map c09ShowDict)
+
+/-- number of rows of the second kind within the window of every row of the first kind -/
+def c09Cross (wl wr : Int) (rows other : List Row) : List Row :=
+  rows.map fun r => { r with id := r.id * 1000 + (other.filter (near wl wr r)).length }
+
+/-- built-in computations, selectable by name; each takes the row lists of the input kinds in
+keyword order (all but `cross` look at the first kind only) -/
+def c09Comp (wl wr : Int) (name : String) : Option (List (List Row) → List Row) :=
+  let first (f : List Row → List Row) : List (List Row) → List Row := fun l => f (l.headD [])
+  match name.splitOn ":" with
+  | ["ident"] => some (first fIdent)
+  | ["count"] => some (first (fCount wl wr))
+  | ["sum"] => some (first (fSum wl wr))
+  | ["gap", g] => do let g ← g.toInt?; pure (first (fGap g))
+  | ["pair0", g] => do let g ← g.toInt?; pure (first (fPair 0 g))
+  | ["pair1", g] => do let g ← g.toInt?; pure (first (fPair 1 g))
+  | ["cross"] => some (fun l => match l with
+      | [a, b] => c09Cross wl wr a b
+      | _ => [])
+  | _ => none
+
+def c09Comp1 (wl wr : Int) (name : String) : Option (List Row → List Row) :=
+  (c09Comp wl wr name).map fun f => fun rows => f [rows]
+
+/-- plugin with outputs `o0, o1, …` computing the named computations -/
+def c09Spec (multi : Bool) (wl wr : Int) (comps : List (List (List Row) → List Row)) : Spec where
+  wl := wl
+  wr := wr
+  multi := multi
+  provides := (List.range comps.length).map fun i => (s!"o{i}", s!"ok{i}")
+  compute := fun kw => (List.range comps.length).zip comps |>.map fun (i, f) => (s!"o{i}", f (kw.map (·.2)))
+  strict := true
+  runId := "0"
+  target := 1000
+
+/-- one aligned call: `kind=chunk;kind=chunk` -/
+def c09ParseCall (s : String) : Option (List (String × RawChunk)) :=
+  (s.splitOn ";").mapM fun tok =>
+    match tok.splitOn "=" with
+    | [k, c] => do pure (k, ← c09ParseChunk s!"d_{k}" k c)
+    | _ => none
+
+def c09BuildCall (l : List (String × RawChunk)) : Except Err (Dict Chunk) :=
+  Overlap.mapE (fun (p : String × RawChunk) => match p.2.mk' with
+    | .error e => .error e
+    | .ok c => .ok (p.1, c)) l
+
+/-- hypotheses of the C09 theorems on a concrete chunk list -/
+def c09Hyp (cs : List Chunk) : String :=
+  s!"stream={if streamB cs then 1 else 0}"
+
+/-- ops of theory T5 (overlap-window plugins). The real harness builds every `strax.Chunk`
+before the plugin runs, so an invalid chunk is a constructor error on both sides. -/
 def handleC09 : List String → Option String
+  | "c09.run" :: comp :: wl :: wr :: cs => do
+    let wl ← wl.toInt?; let wr ← wr.toInt?
+    let f ← c09Comp1 wl wr comp
+    let cs ← cs.mapM (c09ParseChunk "d0" "k0")
+    pure <| showExcept (fun outs => if outs.isEmpty then "-" else " ".intercalate (outs.map c09ShowChunk))
+      (Overlap.mapE (·.mk') cs >>= fun cs => runOverlap f (wl, wr) cs)
+  | "c09.multi" :: comps :: wl :: wr :: cs => do
+    let wl ← wl.toInt?; let wr ← wr.toInt?
+    let fs ← (comps.splitOn ",").mapM (c09Comp wl wr)
+    let cs ← cs.mapM (c09ParseChunk "d0" "k0")
+    pure <| showExcept c09ShowDicts
+      (Overlap.mapE (·.mk') cs >>= fun cs => runDicts (c09Spec true wl wr fs) "k0" cs)
+  | "c09.calls" :: multi :: comps :: wl :: wr :: calls => do
+    let m ← parseBool multi; let wl ← wl.toInt?; let wr ← wr.toInt?
+    let fs ← (comps.splitOn ",").mapM (c09Comp wl wr)
+    let calls ← calls.mapM c09ParseCall
+    pure <| showExcept c09ShowDicts
+      (Overlap.mapE c09BuildCall calls >>= fun calls => runCalls (c09Spec m wl wr fs) calls)
+  | ["c09.whole", comp, wl, wr, rows] => do
+    let wl ← wl.toInt?; let wr ← wr.toInt?
+    let f ← c09Comp1 wl wr comp
+    let rows ← parseRows rows
+    pure s!"ok {showRows (f rows)}"
+  | "c09.hyp" :: cs => do
+    let cs ← cs.mapM (c09ParseChunk "d0" "k0")
+    pure <| showExcept c09Hyp (Overlap.mapE (·.mk') cs)
   | _ => none
 
 end Strax.Driver
